@@ -12,6 +12,9 @@ The files written by the real code are read back by independent readers:
 what the operations should have produced is C08's question; disagreements with the shadow model are only counted here).
 Every export is taken before and after the queries that demote the internal representation, and the region's state
 must be the same sky after each export.
+Sequence cases drive the MIMAS module functions / CLI main repeatedly in ONE process on the SAME .mim paths (save,
+export, mask, combine, intersect, export again, overwrite the file by Region.save and by a plain pickle dump, export
+again): whatever the code remembers between calls, every export and load must describe the file that is on disk.
 """
 import contextlib
 import io
@@ -30,19 +33,25 @@ ID = 'C12'
 LEVEL = 'exploration'
 RULE = ('a case is one region (direct constructions: empty / single pixel at every level / multi-level / whole sky at '
         'depths 1..12; or the regions left by one C08 random history) exported as MOC, DS9 and .mim before and after '
-        'sky_within and get_demoted, also through MIMAS.mim2fits/mim2reg and the CLI; an evaluation is one file judged; '
+        'sky_within and get_demoted, also through MIMAS.mim2fits/mim2reg and the CLI; or one in-process sequence of MIMAS '
+        'function / CLI calls on the same .mim paths (save, export, mask, combine, intersect, export, overwrite, export) '
+        'judged against the file on disk; an evaluation is one file judged; '
         'non-trivial = the region is not empty; distinct = case hash')
 ASSUMPTIONS = ['astropy.io.fits reads what was written', 'healpy.boundaries(step=1, nest=True) gives the corners of a pixel '
                '(same library the exporter uses; independent here: which pixels, which level, units, sexagesimal text)',
                'aegmon/refs/healset.py NUNIQ decode, checked against the definition in the MOC standard at start-up']
 MIN_REACH = {'regions:Region.write_fits': 1, 'regions:Region._uniq': 1, 'regions:Region.write_reg': 1,
              'regions:Region.save': 1, 'regions:Region.load': 1, 'MIMAS:mim2fits': 1, 'MIMAS:mim2reg': 1,
-             'regions:Region.get_demoted': 1, 'regions:Region.sky_within': 1}
+             'regions:Region.get_demoted': 1, 'regions:Region.sky_within': 1, 'MIMAS:intersect_regions': 1,
+             'MIMAS:mask_catalog': 1, 'MIMAS:mask_file': 1, 'MIMAS:combine_regions': 1, 'MIMAS:save_region': 1}
 MIN_COUNTERS = {'moc_files_judged': 300, 'moc_after_query_judged': 100, 'moc_cells_at_maxdepth': 1000,
                 'moc_cells_below_maxdepth': 300, 'reg_files_judged': 100, 'reg_polygons_judged': 2000,
                 'reg_after_query_judged': 30, 'mim_roundtrips_judged': 200, 'depths_1_to_12_direct': 12,
                 'via_mimas_functions': 20, 'via_cli': 4, 'whole_sky_regions': 2, 'empty_regions': 5,
-                'history_regions': 50}
+                'history_regions': 50, 'sequences': 20, 'intersect_judged': 60, 'intersect_differs_from_a': 30,
+                'sequence_exports_after_intersect': 80, 'sequence_exports_after_rewrite': 80,
+                'sequence_exports_before_intersect': 10, 'sequence_loads_judged': 150, 'mask_catalog_calls_ok': 8,
+                'mask_file_calls_ok': 8, 'combine_from_files_judged': 30}
 BATCH_TIMEOUT = 1500
 
 REG_TOL_ARCSEC = 0.2
@@ -451,8 +460,202 @@ def build_direct(case):
     return r
 
 
+class OnDisk:
+    """stand-in for "the region that is on disk": the levels (by value) and maxdepth of what was last written to a path"""
+
+    def __init__(self, region):
+        levels, frac = snapshot(region)
+        if frac:
+            raise RuntimeError('harness: fractional ids in a freshly built region')
+        self.maxdepth = region.maxdepth
+        self.pixeldict = dict((d, set(x)) for d, x in levels.items())
+
+    def deepest(self):
+        return hs.expand(self.pixeldict, self.maxdepth)
+
+
+def _seq_region(rng, anchor, M, scale):
+    """a small region around the anchor, built with the public API"""
+    from AegeanTools.regions import Region
+    r = Region(maxdepth=M)
+    ra, dec, rad = c08._gen_circle(rng, anchor, M, scale=scale)
+    r.add_circles(ra, dec, rad)
+    return r
+
+
+def run_sequence(case, o, workdir):
+    """In ONE process, on the SAME paths: save a.mim / b.mim, use them (exports, masks, combine), intersect them,
+    export them again, overwrite a.mim (Region.save, then a plain pickle dump) and export again.  Every export and every
+    load is judged against what is on disk at that moment."""
+    import pickle
+    import healpy as hp
+    from astropy.io import fits
+    from AegeanTools import MIMAS
+    from AegeanTools.regions import Region
+    from AegeanTools.CLI import MIMAS as cli
+    rng = rng_for(*case['seed'])
+    M = case['depth']
+    via = case['via']
+    res = c08._resol(M)
+    anchor = (float(rng.uniform(0.2, 6.0)), float(np.arcsin(rng.uniform(-0.8, 0.8))))
+    A = _seq_region(rng, anchor, M, 0.45)
+    # B overlaps A but neither contains the other as a rule: centred on a cell of A, similar size
+    pa = sorted(hs.expand(snapshot(A)[0], M))
+    th, ph = hp.pix2ang(2 ** M, pa[int(rng.integers(0, len(pa)))], nest=True)
+    B = _seq_region(rng, (float(ph), float(np.pi / 2 - th)), M, 0.45)
+    C = _seq_region(rng, (float((anchor[0] + 0.5) % (2 * np.pi)), -anchor[1]), M, 0.45)
+    D = _seq_region(rng, anchor, M, 0.3)
+    pa_, pb_ = os.path.join(workdir, 'a.mim'), os.path.join(workdir, 'b.mim')
+    disk = {}
+    ex = Exporter(o, workdir, {'sequence': case['seed'], 'depth': M, 'via': via})
+    log = []
+
+    def cli_call(args, what):
+        buf = io.StringIO()
+        with contextlib.redirect_stdout(buf):
+            rc = cli.main(args)
+        if rc not in (0, None):
+            raise RuntimeError('MIMAS %s returned %r' % (what, rc))
+
+    def save(region, path, how):
+        log.append('%s -> %s' % (how, os.path.basename(path)))
+        if how == 'Region.save':
+            region.save(path)
+        elif how == 'save_region':
+            MIMAS.save_region(region, path)
+        else:                                   # a plain pickle dump, as any other tool would write the file
+            with open(path, 'wb') as f:
+                pickle.dump(region, f, protocol=2)
+        disk[path] = OnDisk(region)
+
+    def check(path, when):
+        """mim2fits, mim2reg and Region.load of `path`, judged against what is on disk"""
+        d = disk[path]
+        name = os.path.basename(path)
+        log.append('export %s (%s)' % (name, when))
+        st = 'seq:%s:%s' % (when, name)
+        if via == 'cli':
+            ex.moc(d, st + ':--mim2fits', writer=lambda out: cli_call(['--mim2fits', path, out], '--mim2fits'),
+                   after_query=False)
+            ex.reg(d, st + ':--mim2reg', writer=lambda out: cli_call(['--mim2reg', path, out], '--mim2reg'))
+        else:
+            ex.moc(d, st + ':mim2fits', writer=lambda out: MIMAS.mim2fits(path, out))
+            ex.reg(d, st + ':mim2reg', writer=lambda out: MIMAS.mim2reg(path, out))
+        ok, r2 = ex.subject(d, st + ':Region.load', Region.load, path)
+        if ok:
+            l2, f2 = snapshot(r2)
+            o.count('sequence_loads_judged')
+            o.n_eval += 1
+            if f2 or r2.maxdepth != d.maxdepth or dict((k, v) for k, v in l2.items() if v) != \
+                    dict((k, v) for k, v in d.pixeldict.items() if v):
+                ex.violate('load_vs_file_on_disk', {'file': name, 'when': when, 'n_loaded': len(hs.expand(l2, r2.maxdepth))
+                                                    if not f2 else None, 'n_on_disk': len(d.deepest())}, d, st)
+        o.count('sequence_exports_' + when.split('#')[0])
+
+    def intersect(when):
+        """a.mim & b.mim -> compared with the intersection of what is on disk"""
+        want = disk[pa_].deepest() & disk[pb_].deepest()
+        log.append('intersect (%s)' % when)
+        if via == 'cli':
+            out = os.path.join(workdir, 'out.mim')
+            ok, _ = ex.subject(disk[pa_], 'seq:' + when, lambda: cli_call(['--intersect', pa_, '--intersect', pb_,
+                                                                          '-o', out], '--intersect'))
+            got = Region.load(out) if ok else None
+        else:
+            ok, got = ex.subject(disk[pa_], 'seq:' + when, MIMAS.intersect_regions, [pa_, pb_])
+        if not ok:
+            return
+        lv, fr = snapshot(got)
+        o.count('intersect_judged')
+        o.n_eval += 1
+        if want != disk[pa_].deepest():
+            o.count('intersect_differs_from_a')
+        if fr or hs.expand(lv, got.maxdepth) != want:
+            ex.violate('intersect_vs_files_on_disk', {'when': when, 'n_result': None if fr else len(hs.expand(lv, got.maxdepth)),
+                                                      'n_expected': len(want), 'n_a': len(disk[pa_].deepest()),
+                                                      'n_b': len(disk[pb_].deepest())}, disk[pa_], 'seq:' + when)
+
+    def use_mask_catalog():
+        # a user of the region file whose own correctness is C10's question: here it only has to have happened
+        cat = os.path.join(workdir, 'cat.csv')
+        th2, ph2 = hp.pix2ang(2 ** M, np.array(pa[:5] + [0, hs.npix(M) - 1]), nest=True)
+        with open(cat, 'w') as f:
+            f.write('ra,dec,peak_flux\n')
+            for a_, d_ in zip(np.degrees(ph2), 90 - np.degrees(th2)):
+                f.write('%.9f,%.9f,1.0\n' % (a_, d_))
+        log.append('mask_catalog(a.mim)')
+        try:
+            MIMAS.mask_catalog(pa_, cat, os.path.join(workdir, 'cat_out.csv'), negate=bool(rng.random() < 0.5))
+            o.count('mask_catalog_calls_ok')
+        except Exception:
+            o.count('mask_catalog_raised_not_judged_here')
+
+    def use_mask_file():
+        img = os.path.join(workdir, 'img.fits')
+        h = fits.Header()
+        h['CTYPE1'], h['CTYPE2'] = 'RA---SIN', 'DEC--SIN'
+        h['CRVAL1'], h['CRVAL2'] = float(np.degrees(anchor[0])), float(np.degrees(anchor[1]))
+        h['CRPIX1'], h['CRPIX2'] = 8.0, 8.0
+        step = float(np.degrees(res)) / 2
+        h['CDELT1'], h['CDELT2'] = -step, step
+        fits.PrimaryHDU(data=np.ones((16, 16), dtype=np.float32), header=h).writeto(img, overwrite=True)
+        log.append('mask_file(a.mim)')
+        try:
+            MIMAS.mask_file(pa_, img, os.path.join(workdir, 'img_out.fits'), negate=bool(rng.random() < 0.5))
+            o.count('mask_file_calls_ok')
+        except Exception:
+            o.count('mask_file_raised_not_judged_here')
+
+    def use_combine():
+        cont = MIMAS.Dummy(maxdepth=M)
+        cont.add_region = [[pa_]]
+        cont.rem_region = [[pb_]]
+        want = disk[pa_].deepest() - disk[pb_].deepest()
+        log.append('combine_regions(+a -b)')
+        ok, got = ex.subject(disk[pa_], 'seq:combine', MIMAS.combine_regions, cont)
+        if ok:
+            lv, fr = snapshot(got)
+            o.count('combine_from_files_judged')
+            o.n_eval += 1
+            if fr or hs.expand(lv, got.maxdepth) != want:
+                ex.violate('combine_vs_files_on_disk', {'n_result': None if fr else len(hs.expand(lv, got.maxdepth)),
+                                                        'n_expected': len(want)}, disk[pa_], 'seq:combine')
+
+    save(A, pa_, str(rng.choice(['Region.save', 'save_region'])))
+    save(B, pb_, str(rng.choice(['Region.save', 'save_region'])))
+    users = [lambda: check(pa_, 'before_intersect'), lambda: check(pb_, 'before_intersect'), use_mask_catalog,
+             use_mask_file, use_combine]
+    for k in rng.permutation(len(users)):
+        if rng.random() < 0.6:
+            users[int(k)]()
+    intersect('intersect#1')
+    post = [lambda: check(pa_, 'after_intersect'), lambda: check(pb_, 'after_intersect'), use_combine]
+    for k in rng.permutation(len(post)):
+        post[int(k)]()
+    intersect('intersect#2')                   # the same answer twice
+    check(pa_, 'after_intersect')
+    # overwrite a.mim with other regions: the exports must follow the file
+    save(C, pa_, 'Region.save')
+    check(pa_, 'after_rewrite')
+    save(D, pa_, 'pickle.dump')
+    check(pa_, 'after_rewrite')
+    intersect('intersect#3')
+    check(pa_, 'after_rewrite_and_intersect')
+    if rng.random() < 0.5:
+        use_combine()
+    save(A, pa_, 'save_region')
+    check(pa_, 'after_rewrite')
+    o.count('sequences')
+    o.n_nontrivial += 1
+    o.sample = {'depth': M, 'via': via, 'steps': log, 'a_cells': len(disk[pa_].deepest()), 'b_cells': len(disk[pb_].deepest())}
+
+
 def cases(seed, tier):
     out = []
+    nseq = 48 if tier == 'quick' else 480
+    for k in range(nseq):
+        out.append({'kind': 'sequence', 'depth': 2 + k % 9, 'via': ('functions', 'cli', 'functions')[k % 3],
+                    'seed': [seed if k >= 6 else 0, 'seq', k]})
     for M in range(1, 13):
         for what in ('empty', 'single_deepest', 'single_coarse', 'single_each_level', 'polar_and_wrap', 'circle',
                      'circle_poly'):
@@ -530,6 +733,8 @@ def run(case):
             if any(len(s.model) for s in h.pool):
                 o.n_nontrivial += 1
             o.sample = {'history_ops': [r_.get('op') for r_ in h.hist], 'regions_exported': n}
+        elif case['kind'] == 'sequence':
+            run_sequence(case, o, workdir)
         else:
             raise RuntimeError('harness: unknown case kind')
         return o.result()
